@@ -146,6 +146,9 @@ pub enum FaultKind {
     /// both directions fail
     Reset,
     Garbage(#[serde(with = "hex_bytes")] Vec<u8>),
+    /// from the trigger on the server answers `idle` (and a pending idle) with this ACK, e.g.
+    /// permission denied; the transport itself stays healthy
+    IdleDenied(u64),
 }
 
 impl FaultKind {
@@ -157,6 +160,7 @@ impl FaultKind {
             FaultKind::WriteErr(_) => "write_err",
             FaultKind::Reset => "reset",
             FaultKind::Garbage(_) => "garbage",
+            FaultKind::IdleDenied(_) => "idle_denied",
         }
     }
 }
@@ -206,6 +210,13 @@ pub struct Picture {
     /// chunk requests at an offset > 0 and >= .0 fail with ACK code .1 (file vanished, I/O error)
     #[serde(default)]
     pub later_error: Option<(u64, u64)>,
+    /// cyclic caps on the chunk sizes the server hands out (each at least 1, never above the
+    /// binary limit): a server may return less than the limit
+    #[serde(default)]
+    pub chunk_caps: Vec<usize>,
+    /// a forced error is reported after the `size:` line has already been printed
+    #[serde(default)]
+    pub header_before_error: bool,
 }
 
 #[derive(Clone, Debug, PartialEq, Eq, Serialize, Deserialize)]
